@@ -5,7 +5,7 @@ import itertools
 import random
 
 from .. import aegen, boot
-from ..result import Result, h64
+from ..result import Result, h64, keep_going
 
 ID = 'C15'
 LEVEL = 'exploration'
@@ -372,7 +372,7 @@ def run_build(spec, res):
     rng = random.Random(spec['seed'])
     w = get_world()
     n = 0
-    while res.elapsed() < spec['budget']:
+    while keep_going(res, spec):
         case = gen_build_case(rng)
         bad, info = run_build_case(w, case, res, rng)
         n += 1
